@@ -88,8 +88,22 @@ def main():
         print(f'INFRASTRUCTURE-ERROR property={prop}: {e}', file=sys.stderr)
         sys.stderr.flush()
         return 2
-    except Exception:
+    except Exception as e:
         traceback.print_exc()
+        # an exception that comes OUT OF the library (a frame of /repo is on the traceback) at a place where the
+        # unchanged code raises nothing: the run cannot be completed, so the property is no longer shown to hold
+        frames = traceback.extract_tb(e.__traceback__)
+        lib = [f for f in frames if os.path.realpath(f.filename).startswith(os.path.realpath(REPO) + os.sep)]
+        if lib:
+            try:
+                rep.violation({'property': prop, 'kind': 'library-raised-in-harness',
+                               'what_no_longer_checks': f'the correspondence / oracle run of {prop} was aborted by an exception raised inside '
+                                                        f'the library where the unchanged code raises none: {type(e).__name__}: {str(e)[:300]}',
+                               'innermost_library_frame': f'{lib[-1].filename}:{lib[-1].lineno} in {lib[-1].name}',
+                               'traceback': traceback.format_exc()[-4000:]}, no_input=True)
+                return rep.finish(level='proof')
+            except Exception:  # noqa
+                traceback.print_exc()
         print(f'INFRASTRUCTURE-ERROR property={prop}: harness crashed', file=sys.stderr)
         return 2
     return rc
